@@ -25,3 +25,11 @@ var _ json.Marshaler = IntrospectAccessToken200JSONResponse{}
 func (r IntrospectAccessToken200JSONResponse) MarshalJSON() ([]byte, error) {
 	return json.Marshal(TokenIntrospectionResponse(r))
 }
+
+var _ json.Marshaler = IntrospectAccessTokenExtended200JSONResponse{}
+
+// MarshalJSON makes the extended introspection response include the additional (credential-derived) properties as well:
+// the generated type is a new type definition of ExtendedTokenIntrospectionResponse and does not inherit its MarshalJSON.
+func (r IntrospectAccessTokenExtended200JSONResponse) MarshalJSON() ([]byte, error) {
+	return json.Marshal(ExtendedTokenIntrospectionResponse(r))
+}
